@@ -220,17 +220,20 @@ func containsWildcards(name string) bool {
 // dedupePaths expects input as a sorted list
 func dedupePaths(in []string) []string {
 	out := make([]string, 0, len(in))
-	var last string
+loop:
 	for _, s := range in {
 		// if one of the paths is root there is no filter
 		if s == "." {
 			return nil
 		}
-		if strings.HasPrefix(s, last+"/") {
-			continue
+		// a kept parent is not necessarily the previous element: in byte order
+		// names like "a-b" sort between "a" and "a/b"
+		for _, parent := range out {
+			if strings.HasPrefix(s, parent+"/") {
+				continue loop
+			}
 		}
 		out = append(out, s)
-		last = s
 	}
 	return out
 }
